@@ -254,3 +254,8 @@ def test_c06_numeric_segment_names_do_not_collide_with_bubble_names(tmp_path):
     run_order_gfa(gfa_filename=gfa, outdir=str(tmp_path / "o"), by_chrom=True, chromosome_order="chr1")
     bo = _bo(tmp_path / "o" / "g-chr1.gfa")
     assert bo["0"] < bo["1"] < bo["2"], bo
+
+
+def test_c14_soft_masked_sequence_is_reverse_complemented(tmp_path):
+    g = GFA(w(tmp_path / "g.gfa", "S\ts1\tAac\nS\ts2\tGAT\nL\ts1\t+\ts2\t+\t0M\n"))
+    assert g.extract_path("<s2<s1") == "ATCgtT"  # lower-case bases used to be reversed only
